@@ -27,6 +27,61 @@ type RType struct {
 	Fields   []RField `json:"fields,omitempty"`
 	Hdr      string   `json:"hdr,omitempty"`   // struct: a comment after the opening brace, on the header's line (it belongs to no declaration)
 	Above    string   `json:"above,omitempty"` // types without doc: a one-line function with a comment behind it on the line directly above
+	Far      bool     `json:"far,omitempty"`   // struct: declared as `type T far.TSrc` over a struct of a package of ANOTHER module (reached through a replace directive), where its fields and their docs stand
+}
+
+// farOK: only structs whose fields need nothing of the local package can be declared elsewhere
+func (t RType) farOK() bool {
+	if !t.Far || t.Kind != "s" || t.Generic {
+		return false
+	}
+	for _, f := range t.Fields {
+		if f.Emb != "" || f.Cls == "e" {
+			return false
+		}
+	}
+	return true
+}
+
+func (c *rdocCase) hasFar() bool {
+	for _, t := range c.Types {
+		if t.farOK() {
+			return true
+		}
+	}
+	return false
+}
+
+// farSource: the package of the other module that declares the structs the far types are defined over
+func (c *rdocCase) farSource(pkg string) string {
+	var b strings.Builder
+	fmt.Fprintf(&b, "package %s\n\n", pkg)
+	for _, t := range c.Types {
+		if !t.farOK() {
+			continue
+		}
+		if t.Hdr != "" {
+			fmt.Fprintf(&b, "type %sSrc struct { // %s\n", strings.ToUpper(t.Name), t.Hdr)
+		} else {
+			fmt.Fprintf(&b, "type %sSrc struct {\n", strings.ToUpper(t.Name))
+		}
+		for _, f := range t.Fields {
+			for _, l := range f.Doc {
+				if l == "" {
+					b.WriteString("\t//\n")
+				} else {
+					b.WriteString("\t// " + l + "\n")
+				}
+			}
+			if f.Cls == "i" {
+				fmt.Fprintf(&b, "\t%s struct{ X int }\n", f.Name)
+			} else {
+				fmt.Fprintf(&b, "\t%s int\n", f.Name)
+			}
+		}
+		b.WriteString("}\n\n")
+	}
+	return b.String()
 }
 
 type rdocCase struct {
@@ -63,7 +118,11 @@ func (t RType) hasExp() bool {
 
 func (c *rdocCase) source(pkg string) string {
 	var b strings.Builder
-	fmt.Fprintf(&b, "// +gengo:runtimedoc\npackage %s\n\ntype E struct{}\n\n", pkg)
+	fmt.Fprintf(&b, "// +gengo:runtimedoc\npackage %s\n\n", pkg)
+	if c.hasFar() {
+		fmt.Fprintf(&b, "import far %q\n\n", "farmod/"+pkg)
+	}
+	b.WriteString("type E struct{}\n\n")
 	doc := func(ls []string, indent string) {
 		for _, l := range ls {
 			if l == "" {
@@ -92,6 +151,10 @@ func (c *rdocCase) source(pkg string) string {
 		case "i":
 			fmt.Fprintf(&b, "type %s interface{ M() }\n\n", t.Name)
 		default:
+			if t.farOK() {
+				fmt.Fprintf(&b, "type %s far.%sSrc\n\n", t.Name, strings.ToUpper(t.Name))
+				break
+			}
 			if t.Hdr != "" {
 				fmt.Fprintf(&b, "type %s%s struct { // %s\n", t.Name, tp, t.Hdr)
 			} else {
@@ -318,6 +381,12 @@ func rdocJob(cases []*rdocCase) *genJob {
 		job.Files[pkg+"/a.go"] = c.source(pkg)
 		job.Entry = append(job.Entry, "./"+pkg)
 		job.Probes[pkg] = c.probe(pkg)
+		if c.hasFar() {
+			// a second module, required and replaced by a directory: the structs some types are defined over live there
+			job.Files["go.mod"] = "module " + genMod + "\n\ngo 1.24\n\nrequire farmod v0.0.0\n\nreplace farmod => ./farmod\n"
+			job.Files["farmod/go.mod"] = "module farmod\n\ngo 1.24\n"
+			job.Files["farmod/"+pkg+"/s.go"] = c.farSource(pkg)
+		}
 	}
 	return job
 }
@@ -682,6 +751,7 @@ func genRdoc(r *Rng) *rdocCase {
 				f.Doc = rdocDocFor(r, f.Name)
 				t.Fields = append(t.Fields, f)
 			}
+			t.Far = r.Chance(22)
 			if t.Hdr != "" && len(t.Fields) > 0 && r.Chance(60) {
 				t.Fields[0].Doc = nil // the stray comment stands directly above a field that has no doc of its own
 			}
@@ -738,7 +808,7 @@ func init() {
 			Name: "packages", Quick: 480, Thorough: 3600, New: func() Case { return &rdocCase{} },
 			Gen:      func(r *Rng, i int) Case { return genRdoc(r) },
 			BatchRun: rdocBatch, ShrinkBudget: 25, MaxShrinks: 6,
-			Rule: "packages of 2–6 types: exported and unexported structs (plain, generic) with exported / unexported / inline-struct / empty-struct fields and fields embedded by value and by pointer, defined int / map / slice / func / string types, interfaces; comments that belong to no declaration on lines of code directly above undocumented fields and types (after a struct's opening brace, behind a one-line function); doc comments from a menu with the name as first word, as a prefix of a longer word, alone, quotes, backslashes, %d, %v, @name, backquotes, non-ASCII, blank lines and tag lines; the real generator (120 packages per Execute) run twice under the output base name zz_docs — the second run over packages that hold the first run's output, and it must write the same files —, go build of what the second run left, and one probe program per batch calling RuntimeDoc on every exported non-interface type for (), F0…F2, f0, T0, T1 and an unknown name, every question asked three times in one process (in order, in order again, in reverse order: an answer may not depend on what was asked before); compared with the model query by query; oracle: the doc text the harness wrote, and the same answer each time",
+			Rule: "packages of 2–6 types: exported and unexported structs (plain, generic; one plain struct in five is a defined type over a struct declared, with its documented fields, in a package of another module reached through a replace directive) with exported / unexported / inline-struct / empty-struct fields and fields embedded by value and by pointer, defined int / map / slice / func / string types, interfaces; comments that belong to no declaration on lines of code directly above undocumented fields and types (after a struct's opening brace, behind a one-line function); doc comments from a menu with the name as first word, as a prefix of a longer word, alone, quotes, backslashes, %d, %v, @name, backquotes, non-ASCII, blank lines and tag lines; the real generator (120 packages per Execute) run twice under the output base name zz_docs — the second run over packages that hold the first run's output, and it must write the same files —, go build of what the second run left, and one probe program per batch calling RuntimeDoc on every exported non-interface type for (), F0…F2, f0, T0, T1 and an unknown name, every question asked three times in one process (in order, in order again, in reverse order: an answer may not depend on what was asked before); compared with the model query by query; oracle: the doc text the harness wrote, and the same answer each time",
 		},
 	}})
 }
